@@ -35,7 +35,11 @@ Inductive event :=
 | EStart (q : nat) (prep_ok : bool)
 | EAcquire (q : nat)                 (* `sem <- struct{}{}` succeeded *)
 | ETimeout (q : nat)                 (* `<-ctx.Done()` of TryAddFor chosen *)
-| EExit (q : nat) (o : outcome).     (* body left by o; deferred `<-sem` executed *)
+| EExit (q : nat) (o : outcome)      (* body left by o; deferred `<-sem` executed *)
+| ECancelWait (q : nat).             (* the caller cancels the query context while the query is inside
+                                        TryAddFor: TryAddFor waits on its own context.Background() timer and
+                                        does not look at the query context, so the query stays Waiting (it is
+                                        later served or times out like any other) and the counter is untouched *)
 
 Record state := mkState { phases : list phase; in_use : nat }.
 
@@ -80,6 +84,11 @@ Definition sem_step (strict : bool) (max : nat) (s : state) (e : event) : option
     | Some Holding => if post_acq o then Some (set_phase s q (Done o) (in_use s - 1)) else None
     | _ => None
     end
+  | ECancelWait q =>
+    match nth_error (phases s) q with
+    | Some Waiting => Some (set_phase s q Waiting (in_use s))
+    | _ => None
+    end
   end.
 
 Fixpoint run_trace (strict : bool) (max : nat) (s : state) (evs : list event) : option state :=
@@ -115,7 +124,10 @@ Inductive kind :=
 
 Inductive op :=
 | OpSpawn (q : nat) (k : kind) (patient : bool)  (* patient: long acquisition timeout *)
-| OpFinish (q : nat).                            (* let the blocked holder q leave by its exit path *)
+| OpFinish (q : nat)                             (* let the blocked holder q leave by its exit path *)
+| OpCancelWait (q : nat).                        (* cancel the context of the parked query q while the semaphore is
+                                                    full and nobody releases, then wait for its return: it is
+                                                    answered by the acquisition timeout *)
 
 (* what the harness can see *)
 Inductive ocode := CStarted | CAcq | CTooMany | COk | CErr | CPanic | CHang.
@@ -173,6 +185,11 @@ Definition op_plan (max : nat) (s : sstate) (o : op)
     | Some x =>
       let '(ev, ob, hs, rest) := drain (max - (in_use (core s) - 1)) (waiters s) in
       Some (EExit q (out_of x) :: ev, (q, code_of x) :: ob, remove_key q (holders s) ++ hs, rest)
+    end
+  | OpCancelWait q =>
+    match lookup q (waiters s) with
+    | None => None
+    | Some _ => Some ([ECancelWait q; ETimeout q], [(q, CTooMany)], holders s, remove_key q (waiters s))
     end
   end.
 
